@@ -1264,12 +1264,13 @@ func (fv *FV) rangeMap(e *Env, s *ast.RangeStmt, mt *types.Map, label string, ls
 		dom = fv.mapDom(head, m.T, mt)
 	}
 	// exit: every key currently in the map has been visited
-	exit := head.clone()
+	more := fv.s.freshConst("more", sBool)
+	exit := fv.withCond(head, not(more))
 	kq := "k!q"
 	exitFact := Term{fmt.Sprintf("(forall ((%s %s)) (! (=> (select %s %s) (select %s %s)) :pattern ((select %s %s))))", kq, ks, dom.S, kq, vis.S, kq, vis.S, kq), sBool}
 	fv.assume(exit, exitFact)
 	// body: some unvisited key
-	body := head.clone()
+	body := fv.withCond(head, more)
 	k := fv.s.freshConst("k", ks)
 	if s.Key != nil {
 		if kt := fv.typeOf(s.Key); kt != nil {
